@@ -462,12 +462,15 @@ package node
 //@   modifies *
 //@ loop 1
 //@   invariant forall j int :: 0 <= j && j < iter ==> keyInTable(ay[j], table)
-// (the same invariant on advanceScanCommand is not claimed: no installed solver decides its preservation; safety only)
+// ADVSCAN / ADVREVSCAN: the same cut.  At the point where the reply is built (the GetNamespaceAndPartition call) the
+// last key of the page is in the scanned table (or has no table prefix at all, which ExtractTable rejects and the
+// handler lets through): a short page is checked like a full one.
 //@ func (nd *KVNode) advanceScanCommand(cmd redcon.Command) (interface{}, error)
 //@   requires nd != nil && nd.store != nil && len(cmd.Args) >= 1
 //@   modifies *
+//@   callassert GetNamespaceAndPartition len(ay) > 0 ==> (keyInTable(ay[len(ay)-1], table) || !(exists idx int :: firstSep(ay[len(ay)-1], idx)))
 //@ loop 1
-//@   invariant true
+//@   invariant iter > 0 ==> keyInTable(ay[iter-1], table)
 
 // secondary-index query (hidx.from): a merge handler, run by the server fan-out in goroutines without recover
 //@ property C11
